@@ -42,6 +42,7 @@ pub struct GenModel {
     transitions: AtomicU64,
     finish_at: std::sync::Mutex<std::collections::BTreeSet<usize>>,
     mixed_sizes: AtomicU64,
+    checked_last: AtomicU64,
 }
 
 /// Replay a history on a fresh real generator and check every clause of the statement.
@@ -131,7 +132,12 @@ impl Model for GenModel {
         Some(HState { finished: a == Op::Finish, hist, bad })
     }
     fn properties(&self) -> Vec<Property<Self>> {
-        vec![Property::always("chunks equal one-shot", |_m: &GenModel, s: &HState| s.bad.is_none())]
+        vec![Property::always("chunks equal one-shot", |m: &GenModel, s: &HState| {
+            if s.hist.len() == m.depth {
+                m.checked_last.fetch_add(1, Ordering::Relaxed);
+            }
+            s.bad.is_none()
+        })]
     }
 }
 
@@ -202,9 +208,11 @@ pub fn run(tier: Tier) -> i32 {
                 transitions: Default::default(),
                 finish_at: Default::default(),
                 mixed_sizes: Default::default(),
+                checked_last: Default::default(),
             };
-            let checker = model.checker().threads(threads).target_max_depth(depth + 1).spawn_bfs().join();
+            let checker = model.checker().threads(threads).target_max_depth(depth + 2).spawn_bfs().join();
             counts.push(checker.unique_state_count());
+            rep.guard(checker.model().checked_last.load(Ordering::Relaxed) > 0, "invariant never evaluated on histories at the depth bound");
             if threads != nthreads() {
                 continue;
             }
